@@ -409,3 +409,21 @@ Proof.
       (rprod (q_list a0 ((M :: Ms') ++ [m0]) (a1 :: a2 :: rest')) * / wt_max m0 a0 (a1 :: a2 :: rest'))); [ring|].
     rewrite H. ring.
 Qed.
+
+(* ------------------------------------------------------------------ nested chains *)
+(* nested chains (_restruct_pi / tree_boost): the momenta of a sub-decay, generated in the rest frame of the
+   intermediate particle of mass m, are re-boosted with rest_vector(neg(p0)), p0 = momentum of the intermediate
+   particle in the outer frame: they stay on shell and add up to p0 *)
+Theorem nested_reboost m p3 l : 0 < m ->
+  let p0 := mk4 (sqrt (m * m + norm2_3 p3)) p3 in
+  vel_ok (boost_vector p0) ->
+  sum4 l = V4 m 0 0 0 ->
+  sum4 (map (rest_vector (neg4 p0)) l) = p0 /\ map mass2 (map (rest_vector (neg4 p0)) l) = map mass2 l.
+Proof.
+  intros Hm p0 Hv Hsum.
+  assert (E : forall x, rest_vector (neg4 p0) x = boost x (boost_vector p0)).
+  { intros x. unfold rest_vector. f_equal. apply vec3_eq; unfold neg3, boost_vector, neg4, p0, mk4; cbn [pt px py pz vx vy vz]; unfold Rdiv; ring. }
+  split.
+  - rewrite (map_ext _ (fun x => boost x (boost_vector p0)) E), sum4_map_boost, Hsum. apply boost_from_rest. assumption.
+  - rewrite map_map. apply map_ext. intros x. rewrite E. unfold mass2. apply mink_boost. assumption.
+Qed.
